@@ -18,9 +18,15 @@ type C10Walk struct {
 	Steps string `json:"steps"` // word over F (Forward) and B (Backward)
 }
 
+// Nested (C10Seek): while the callback of this SeekIter is at its Nested-1-th entry it runs another complete
+// SeekIter (probe NestedProbe) on the same tree; both must be right.
 type C10Seek struct {
 	Probe  int `json:"probe"`
 	StopAt int `json:"stop_at"` // callback signals ErrIterDone at this index; -1 = never
+	// Nested > 0: when the callback receives its Nested-th entry it first runs another complete SeekIter
+	// (probe NestedProbe) on the same tree; both iterations must be right
+	Nested      int `json:"nested,omitempty"`
+	NestedProbe int `json:"nested_probe,omitempty"`
 }
 
 type C10Case struct {
@@ -79,7 +85,12 @@ func genC10(t *rapid.T, tier string) C10Case {
 	}
 	ns := rapid.IntRange(1, 4).Draw(t, "nseeks")
 	for i := 0; i < ns; i++ {
-		c.Seeks = append(c.Seeks, C10Seek{Probe: rapid.IntRange(0, pool-1).Draw(t, "seekprobe"), StopAt: rapid.IntRange(-1, 6).Draw(t, "stopat")})
+		sk := C10Seek{Probe: rapid.IntRange(0, pool-1).Draw(t, "seekprobe"), StopAt: rapid.IntRange(-1, 6).Draw(t, "stopat")}
+		if rapid.IntRange(0, 3).Draw(t, "nested") == 0 {
+			sk.Nested = rapid.IntRange(1, 5).Draw(t, "nestedat")
+			sk.NestedProbe = rapid.IntRange(0, pool-1).Draw(t, "nestedprobe")
+		}
+		c.Seeks = append(c.Seeks, sk)
 	}
 	return c
 }
@@ -230,10 +241,31 @@ func runC10(c C10Case, o *run.Obs) error {
 			interesting = true
 		}
 		var got []core.KV
+		var nestedErr error
 		n := 0
 		err := core.Safely("SeekIter", func() error {
 			return t.M.SeekIter(core.Ctx, w.Pool[probe], func(k, v interface{}) error {
 				got = append(got, core.KV{K: k, V: v})
+				if sk.Nested > 0 && len(got) == sk.Nested {
+					// a second, complete iteration from inside the callback of the first
+					ip := sk.NestedProbe % len(w.Pool)
+					var inner []core.KV
+					if e := t.M.SeekIter(core.Ctx, w.Pool[ip], func(k2, v2 interface{}) error {
+						inner = append(inner, core.KV{K: k2, V: v2})
+						return nil
+					}); e != nil {
+						nestedErr = fmt.Errorf("SeekIter(%v) run from inside the callback failed: %w", w.Pool[ip], e)
+					}
+					wantIn := keys[lowerBound(ip):]
+					if nestedErr == nil && len(inner) != len(wantIn) {
+						nestedErr = fmt.Errorf("SeekIter(%v) run from inside the callback yielded %d entries %v, expected %d", w.Pool[ip], len(inner), kvKeysOf(inner), len(wantIn))
+					}
+					for i := 0; nestedErr == nil && i < len(wantIn); i++ {
+						if w.Cfg.RefCompare(inner[i].K, w.Pool[wantIn[i]]) != 0 {
+							nestedErr = fmt.Errorf("SeekIter(%v) run from inside the callback: entry %d is %v, expected %v", w.Pool[ip], i, inner[i].K, w.Pool[wantIn[i]])
+						}
+					}
+				}
 				if sk.StopAt >= 0 && n == sk.StopAt {
 					return mast.ErrIterDone
 				}
@@ -244,6 +276,12 @@ func runC10(c C10Case, o *run.Obs) error {
 		desc := fmt.Sprintf("[%s] seek %d (%s, tree %s, height %d): SeekIter(%v) stop_at=%d", c.Cfg, si, c.Residency, w.DescribeModel(t.Model), height, w.Pool[probe], sk.StopAt)
 		if err != nil {
 			return fmt.Errorf("%s failed: %w", desc, err)
+		}
+		if nestedErr != nil {
+			return fmt.Errorf("%s, at its entry %d: %w", desc, sk.Nested, nestedErr)
+		}
+		if sk.Nested > 0 {
+			o.Label("nested-seek")
 		}
 		want := keys[lowerBound(probe):]
 		if sk.StopAt >= 0 && len(want) > sk.StopAt+1 {
